@@ -27,9 +27,9 @@ func hugeValues(n int) []int {
 	for i := range out {
 		out[i] = int(core.Mix(uint64(i)*2654435761+7) % uint64(4*n))
 	}
-	// the smallest values stand at the very end
+	// the smallest values stand at the very end, in descending order
 	for k := 0; k < 7 && k < n; k++ {
-		out[n-1-k] = -1 - k
+		out[n-1-k] = -7 + k
 	}
 	return out
 }
